@@ -62,6 +62,39 @@ func TestC16(t *testing.T) {
 			}
 		}
 	}
+	// cached sessions over one shared intermediate-key cache: after all holders and the factory are closed every key of
+	// every session has to be released as well (ledger of the programs)
+	sessprog.SharedIK = true
+	p0 := inBubble(t, func() {
+		w := world.New("memguard")
+		defer w.Close()
+		time.Sleep(13 * time.Second)
+		sessprog.EnumeratePrograms(ev.Pick(3, 5), func(prog []sessprog.Op) {
+			if failed > 20 {
+				return
+			}
+			sig, detail, _ := sessprog.RunProgram(w, "lru", 2, prog, time.Hour)
+			r.Eval(1)
+			r.Count("programs_with_shared_ik_cache", 1)
+			if strings.HasPrefix(sig, "INCONCLUSIVE:") {
+				r.Inconclusive(detail)
+			} else if sig != "" {
+				failed++
+				r.Violation(sig, detail+" (shared intermediate-key cache)", map[string]any{"engine": "conc/c16", "shared_ik": true, "program": sessprog.ProgString(prog)})
+			}
+			for _, f := range sessprog.LastLedger {
+				if kind, msg, _ := strings.Cut(f, "|"); kind == "leaked" {
+					failed++
+					r.Violation("c16-session-resources-not-released", fmt.Sprintf("session cache lru/2 over a shared intermediate-key cache, program [%s]: %s", sessprog.ProgString(prog), msg), map[string]any{"program": sessprog.ProgString(prog)})
+					break
+				}
+			}
+		})
+	})
+	sessprog.SharedIK = false
+	if p0 != nil {
+		r.Violation("c16-panic-or-deadlock", fmt.Sprintf("shared intermediate-key cache: %v", p0), nil)
+	}
 	// session-cache durations at the far end of the range ("never expire"): the same programs, shorter, with
 	// SessionCacheDuration = 250 years and = the largest time.Duration
 	for _, dur := range []time.Duration{250 * 365 * 24 * time.Hour, time.Duration(math.MaxInt64), time.Duration(math.MaxInt64) - time.Millisecond} {
